@@ -2,11 +2,13 @@
 import Driver.Core
 import Driver.Sec
 import Driver.Txn
+import Driver.Srv
 open Drv
 
 structure St where
   core : CoreSt := {}
   txn : TxnSt := {}
+  srv : SrvSt := {}
 
 def step (s : St) (line : String) : St × String :=
   match (line.trimAscii.toString.splitOn " ").filter (· ≠ "") with
@@ -15,6 +17,7 @@ def step (s : St) (line : String) : St × String :=
   | "SET" :: args => let (c, o) := stepSet s.core args; ({ s with core := c }, o)
   | "KNN" :: args => let (c, o) := stepKnn s.core args; ({ s with core := c }, o)
   | "SEC" :: args => (s, stepSec args)
+  | "SRV" :: args => let (c, o) := stepSrv s.srv args; ({ s with srv := c }, o)
   | "TXN" :: args => let (c, o) := stepTxn s.txn args; ({ s with txn := c }, o)
   | _ => (s, "bad-op")
 
